@@ -381,6 +381,9 @@ pub fn gen_doc(opts: &SymOpts) -> SymDoc {
                         t.extend(std::iter::repeat(b'x').take(ch("sym.win.tail.gap", 4) as usize));
                     }
                     t
+                } else if chance("sym.win.empty_last", 1, 12) {
+                    // the last column left empty: the line ends right after the separator
+                    Vec::new()
                 } else if ty == b'4' {
                     win_program(ext)
                 } else {
@@ -436,6 +439,24 @@ pub fn gen_doc(opts: &SymOpts) -> SymDoc {
                 2 => doc.lines.push(b"FUNC zz 10 0 bad_hex".to_vec()),
                 3 => doc.lines.push(b"MODULE Linux x86 000000000000000000000000000000000 late.so".to_vec()),
                 _ => doc.lines.push(b"PUBLIC 1000".to_vec()),
+            }
+        }
+    }
+    // Empty trailing field: one or two lines of a third of the files end right after their last
+    // separator (`PUBLIC 1000 0 `, `FUNC 1000 10 0 `, `STACK CFI 1004 `, `FILE 3 `).  Some of these
+    // parse, some are errors - in every case identically under every chunking.
+    if opts.fatal_lines && !doc.lines.is_empty() {
+        let n_empty = match ch("sym.empty_tail", 6) {
+            0 => 1,
+            1 => 2,
+            _ => 0,
+        };
+        for _ in 0..n_empty {
+            let i = range("sym.empty_tail.line", 0, doc.lines.len() as u64 - 1) as usize;
+            if doc.lines[i].len() < 4096 {
+                if let Some(p) = doc.lines[i].iter().rposition(|&b| b == b' ') {
+                    doc.lines[i].truncate(p + 1);
+                }
             }
         }
     }
